@@ -7,13 +7,14 @@ Fixpoint run_ops (ops : list op) (d : deferred) (lg : log) : list oobs * deferre
   | o :: r =>
       let '(out, d', lg') := step o d lg in
       let '(xs, d'', lg'') := run_ops r d' lg' in
-      (mkO (state_of d) (d_called d) out (state_of d') (d_called d') :: xs, d'', lg'')
+      (mkO (state_of d) (d_called d) out (state_of d') (d_called d') (length lg' - length lg) :: xs, d'', lg'')
   end.
 
 Definition model_hist (ops : list op) : hobs :=
   let '(xs, d, lg) := run_ops ops new_deferred [] in
-  let '(_, de, lge) := run_ops (erase ops new_deferred []) new_deferred [] in
-  mkH xs lg (unhandled d) lge (state_of de) (d_called de) (unhandled de).
+  let eops := erase ops new_deferred [] in
+  let '(_, de, lge) := run_ops eops new_deferred [] in
+  mkH xs lg (unhandled d) eops lge (state_of de) (d_called de) (unhandled de).
 
 Definition fired_stage (s : nat + nat) : stage :=
   match s with
@@ -22,7 +23,7 @@ Definition fired_stage (s : nat + nat) : stage :=
   end.
 
 Definition model_sync (s : nat + nat) : sobs :=
-  mkS (direct_run_user s) (sync_run_user (fired_stage s)) (sync_run_user (StDeferred new_deferred)) [] [].
+  mkS (direct_run_user s) (sync_run_user (fired_stage s)) [] [].
 
 Definition model (i : input) : obs :=
   match i with
@@ -33,21 +34,23 @@ Definition model (i : input) : obs :=
 Definition oobs_eqb (a b : oobs) : bool :=
   dstate_eqb (p_before a) (p_before b) && Bool.eqb (p_cbefore a) (p_cbefore b)
   && opout_eqb (p_out a) (p_out b)
-  && dstate_eqb (p_after a) (p_after b) && Bool.eqb (p_cafter a) (p_cafter b).
+  && dstate_eqb (p_after a) (p_after b) && Bool.eqb (p_cafter a) (p_cafter b)
+  && Nat.eqb (p_ran a) (p_ran b).
 
 Definition hobs_eqb (a b : hobs) : bool :=
   list_eqb oobs_eqb (h_ops a) (h_ops b)
   && log_eqb (h_log a) (h_log b) && Bool.eqb (h_unhandled a) (h_unhandled b)
+  && list_eqb op_eqb (h_eops a) (h_eops b)
   && log_eqb (h_elog a) (h_elog b) && dstate_eqb (h_efinal a) (h_efinal b)
   && Bool.eqb (h_ecalled a) (h_ecalled b) && Bool.eqb (h_eunhandled a) (h_eunhandled b).
 
 (* the event lists of the two whole-test runs are compared only with each other (the
    model of a whole test run belongs to C01-C03): alpha keeps "are they equal" *)
-Definition sobs_alpha (o : sobs) : uret * uret * uret * bool :=
-  (s_direct o, s_fired o, s_unfired o, list_eqb Nat.eqb (s_ev_direct o) (s_ev_fired o)).
+Definition sobs_alpha (o : sobs) : uret * uret * bool :=
+  (s_direct o, s_fired o, list_eqb Nat.eqb (s_ev_direct o) (s_ev_fired o)).
 
 Definition sobs_eqb (a b : sobs) : bool :=
-  uret_eqb (s_direct a) (s_direct b) && uret_eqb (s_fired a) (s_fired b) && uret_eqb (s_unfired a) (s_unfired b)
+  uret_eqb (s_direct a) (s_direct b) && uret_eqb (s_fired a) (s_fired b)
   && Bool.eqb (list_eqb Nat.eqb (s_ev_direct a) (s_ev_fired a)) (list_eqb Nat.eqb (s_ev_direct b) (s_ev_fired b)).
 
 Definition obs_eqb (a b : obs) : bool :=
@@ -57,7 +60,7 @@ Definition obs_eqb (a b : obs) : bool :=
   | _, _ => false
   end.
 
-Inductive obs_a := AHist (h : hobs) | ASync (x : uret * uret * uret * bool).
+Inductive obs_a := AHist (h : hobs) | ASync (x : uret * uret * bool).
 Definition alpha (o : obs) : obs_a :=
   match o with OHist h => AHist h | OSync s => ASync (sobs_alpha s) end.
 
